@@ -1171,6 +1171,24 @@ def _resolution_table(prog, chk, R):
         ([[('f', ['String'])], [('f', ['Char'])], []], 'f', ['Char']),
         ([[('f', ['A'])], [], []], 'f', ['null']),
     ]
+    if getattr(chk, 'tier', 'quick') == 'thorough':
+        # thorough tier: every three-level hierarchy with at most two one-parameter overloads of f at the receiver's level and at most
+        # one at each level above it, parameter types from {Int, Long, A, B, D, C}, called with every argument kind — compared with
+        # the documented resolution (≈ 7 500 scenarios per resolver)
+        import itertools as _it
+        PT = ['Int', 'Long', 'A', 'B', 'D', 'C']
+        l0 = [[]] + [[('f', [a_])] for a_ in PT] + [[('f', [a_]), ('f', [b_])] for a_, b_ in _it.combinations(PT, 2)]
+        l12 = [[]] + [[('f', [a_])] for a_ in PT]
+        have = {repr(x) for x in SCEN}
+        for a_ in l0:
+            for b_ in l12:
+                for c_ in l12:
+                    if not (a_ or b_ or c_):
+                        continue
+                    for arg in ['Int', 'Long', 'A', 'B', 'D', 'C', 'null']:
+                        sc = ([a_, b_, c_], 'f', [arg])
+                        if repr(sc) not in have:
+                            SCEN.append(sc)
     bad, n = [], 0
     for levels, name, args in SCEN:
         n += 1
